@@ -62,8 +62,14 @@ type c15World struct {
 	endReturned   int64 // event clock when the first End returned
 	catchAfterEnd string
 	// a Catch returned after the collector had been told to stop: no further Catch may begin
-	endedMelted       bool
-	catchAfterMelted  string
+	endedMelted      bool
+	catchAfterMelted string
+	// promptness of the replacement: when the peers went away on their own, when End was first called,
+	// and when rendezvous attempts began (virtual time)
+	selfClosedAt      time.Duration
+	endCalledAt       time.Duration
+	catchTimes        []time.Duration
+	inFlight          int
 	overCap           string
 	popBad            string
 	popped            []int
@@ -86,6 +92,9 @@ func (t c15Tongue) Catch() (*WebRTCPeer, error) {
 	}
 	i := w.catches
 	w.catches++
+	w.catchTimes = append(w.catchTimes, vs.Elapsed())
+	w.inFlight++
+	defer func() { w.inFlight-- }()
 	// one attempt may be in flight when the collector is told to stop (or begin in the window between
 	// Collect's check and the stop); once an attempt has ENDED after the stop, no other may begin
 	if w.peers != nil && verifMelted(w.peers) && w.endedMelted && w.catchAfterMelted == "" {
@@ -139,7 +148,7 @@ func init() {
 		Name:    "c15",
 		Horizon: 60 * time.Second,
 		Body: func(x *vs.X) {
-			w := &c15World{}
+			w := &c15World{selfClosedAt: -1, endCalledAt: -1}
 			x.User = w
 			w.max = 1 + vs.Choose("max", cfgInt(x, "maxes", 2))
 			nScript := cfgInt(x, "script", 2)
@@ -153,7 +162,7 @@ func init() {
 			// the data path starts asking at 1 s, or at 10.5 s (while the second rendezvous may be in flight)
 			popFirst := []time.Duration{time.Second, 10500 * time.Millisecond}[vs.Choose("popfirst", 2)]
 			// End calls: instants of the first and (optionally) second call
-			end1 := []time.Duration{1 * time.Second, 10 * time.Second, 12 * time.Second}[vs.Choose("end1", 3)]
+			end1 := []time.Duration{1 * time.Second, 10 * time.Second, 12 * time.Second, 45 * time.Second}[vs.Choose("end1", 4)]
 			end2 := []time.Duration{-1, 0, 5 * time.Second}[vs.Choose("end2", cfgInt(x, "end2s", 3))]
 			x.Outcome(fmt.Sprintf("max=%d script=%v selfclose=%v pops=%d from %v end1=%v end2=+%v", w.max, w.script, selfClose, nPop, popFirst, end1, end2))
 
@@ -202,6 +211,11 @@ func init() {
 				vs.GoRole("selfcloser", vs.RoleDaemon, func() {
 					vs.Sleep(selfClose)
 					// every peer that exists now closes on its own (stale / closed by the proxy)
+					// (the promptness oracle applies when this leaves the client without any peer: something was
+					// closed, and no rendezvous is in flight that will deliver another one)
+					if len(w.recs) > 0 && w.inFlight == 0 {
+						w.selfClosedAt = vs.Elapsed()
+					}
 					for _, r := range append([]*peerRec(nil), w.recs...) {
 						r.p.Close()
 						if r.closedAt == 0 {
@@ -214,6 +228,9 @@ func init() {
 			ender := func(name string, at time.Duration) {
 				vs.GoRole(name, vs.RoleRequest, func() {
 					vs.Sleep(at)
+					if w.endCalledAt < 0 {
+						w.endCalledAt = vs.Elapsed()
+					}
 					w.peers.End()
 					t := w.tick()
 					if w.endReturned == 0 {
@@ -257,6 +274,20 @@ func init() {
 			}
 			if w.catchAfterMelted != "" {
 				x.Fail("stops-collecting", "second-rendezvous-after-stop", "%s", w.catchAfterMelted)
+			}
+			// a peer that went away is replaced promptly: connectLoop looks for a new one every ReconnectTimeout,
+			// so a rendezvous attempt begins within that time after the peers closed on their own (unless the
+			// connection was closed meanwhile)
+			if w.selfClosedAt >= 0 && (w.endCalledAt < 0 || w.endCalledAt > w.selfClosedAt+ReconnectTimeout) {
+				found := false
+				for _, t := range w.catchTimes {
+					if t > w.selfClosedAt && t <= w.selfClosedAt+ReconnectTimeout {
+						found = true
+					}
+				}
+				if !found {
+					x.Fail("retried-later", "no-rendezvous-within-ReconnectTimeout-after-the-peers-went-away", "all peers closed on their own at %v; rendezvous attempts began at %v, none within the next %v (End was called at %v)", w.selfClosedAt, w.catchTimes, ReconnectTimeout, w.endCalledAt)
+				}
 			}
 			if w.catchAfterEnd != "" {
 				x.Fail("stops-collecting", "catch-after-end", "%s", w.catchAfterEnd)
